@@ -105,3 +105,93 @@ def diag_init_loop():
 LOOPS = {
     (f"{TR}.diagonalize.Diagonalize.__init__", 0): diag_init_loop(),
 }
+
+
+# ----------------------------------------------------------------------------- Jac / Grad
+
+
+def materialize_contract(interp, args, kwargs):
+    """Contract of _utils._materialize(optional_tensors, inputs): a tuple with, at position j, optional_tensors[j]
+    if it is not None, else zeros of the shape of inputs[j].  (Verified on its own against the loop: theory check
+    `materialize`.)"""
+    opt = args[0] if args else kwargs["optional_tensors"]
+    inp = args[1] if len(args) > 1 else kwargs["inputs"]
+    oseq = P.as_symseq(interp, opt) if V.concrete_iter(opt) is None else P.conc_seq(V.concrete_iter(opt))
+    iseq = P.as_symseq(interp, inp) if V.concrete_iter(inp) is None else P.conc_seq(V.concrete_iter(inp))
+
+    def get(j):
+        o = oseq.get(j)
+        x = iseq.get(j)
+        if not isinstance(o, V.Opt):
+            return o
+        return LTen(x.shape, lambda idx: z3.If(o.is_none, ZERO, o.value.elem(idx)), fresh=True)
+    return V.SymSeq(oseq.length, get)
+
+
+OVERRIDES = {f"{TR}._utils._materialize": materialize_contract}
+
+
+def cot_family(cx, outs: V.SymSeq, m, name="cot"):
+    """jac_outputs: for output j a tensor of shape (m,) + shape(out_j) with symbolic content cot(j, r, e)."""
+    f = cx.fresh_func(name, IntS, IntS, IntS, RealS)
+    seq = V.SymSeq(outs.length, lambda j: LTen(V.Shape([m], outs.get(j).shape.tail),
+                                               lambda idx, j=j: f(lift(j), idx[0], idx[1]), fresh=False))
+    return seq, f
+
+
+def jac_spec_row(cx, outs, inputs, jac_outputs, r, k, c):
+    """Row r of the Jacobian pulled back to input k, flat position c:
+       0 if input k is unreachable from the outputs, else sum_{r'} cot_r(r') * DJ(outs, r', x_k, c), where cot_r is
+       the flattened r-th row of `jac_outputs` (flattening in the order of `outs`)."""
+    from tjv.pyvc.lten import _outs_handle
+    it = _FakeInterp(cx)
+    h, _ = _outs_handle(it, outs)
+    offO = offsets(it, outs)
+    x = inputs.get(k).ref
+
+    def body(rp):
+        j = offO.blk(rp)
+        return jac_outputs.get(j).elem([r, rp - offO.off(j)]) * DJ(h, rp, x, c)
+    return z3.If(U("unreachable", z3.BoolSort(), h, x), ZERO, delta_sum(cx, offO.total(), body))
+
+
+def jac_chunk_loop():
+    """Jac._differentiate, loop 0 (all chunks but the last): iteration i differentiates rows [i*k, (i+1)*k) with
+    retain_graph=True and appends them.  Invariant: the chunks so far stack to exactly the first i*k spec rows."""
+
+    def ctxvals(frame):
+        self = frame.vars["self"]
+        return self, frame.vars["jac_outputs"], frame.vars["m"], frame.vars["max_chunk_size"], frame.vars["n_chunks"]
+
+    def havoc(cx, frame, i):
+        rowf = cx.fresh_func("rows", IntS, IntS, RealS)
+        total = cx.fresh_int("rows_total")
+        it = _FakeInterp(cx)
+        inputs = frame.vars["inputs"]
+        N = offsets(it, P.as_symseq(it, inputs)).total()
+        frame.vars["jac_matrix_chunks"] = RowBlocks(total, N, lambda r, c: rowf(r, c))
+
+    def inv(cx, frame, i):
+        it = _FakeInterp(cx)
+        self, jac_outputs, m, k, n = ctxvals(frame)
+        k = k.value if isinstance(k, V.Opt) else k
+        chunks = frame.vars["jac_matrix_chunks"]
+        facts = []
+        ik = lift(i) * lift(k)
+        if isinstance(chunks, list):
+            facts.append(("empty_at_start", z3.BoolVal(len(chunks) == 0) if True else None))
+            facts.append(("index_zero", lift(i) == 0))
+            return facts
+        facts.append(("rows_so_far", lift(chunks.total) == ik))
+        r, c = z3.Int("r!q"), z3.Int("c!q")
+        inputs = P.as_symseq(it, frame.vars["inputs"])
+        outs = P.as_symseq(it, frame.vars["outputs"])
+        offI = offsets(it, inputs)
+        kk = offI.blk(c)
+        body = chunks.row(r, c) == jac_spec_row(cx, outs, inputs, P.as_symseq(it, jac_outputs), r, kk, c - offI.off(kk))
+        facts.append(("rows_are_spec_rows", z3.ForAll([r, c], z3.Implies(z3.And(0 <= r, r < ik, 0 <= c, c < offI.total()), body))))
+        return facts
+    return LoopSpec(havoc, inv)
+
+
+LOOPS[(f"{TR}.jac.Jac._differentiate", 0)] = jac_chunk_loop()
